@@ -377,7 +377,13 @@ class SC:
         return SC(self.im, ZERO, lin)
 
     def is_real(self):
-        return is_const(self.im) and const_val(self.im) == 0
+        if is_const(self.im):
+            return const_val(self.im) == 0
+        si = z3.simplify(self.im, som=True)
+        if is_const(si) and const_val(si) == 0:
+            self.im = ZERO
+            return True
+        return False
 
     def abs2(self):
         return SC(radd(rmul(self.re, self.re), rmul(self.im, self.im)))
@@ -1692,6 +1698,9 @@ def eval_term(t, val, cache=None):
         e, ready = stack.pop()
         i = e.get_id()
         if i in cache:
+            continue
+        if z3.is_int_value(e):
+            cache[i] = e.as_long()
             continue
         if z3.is_rational_value(e):
             cache[i] = e.numerator_as_long() / e.denominator_as_long()
